@@ -132,6 +132,86 @@ def family_equivalence(rng, fid):
     return c, {'kind': 'equivalence', 'names': names, 'plan': plan, 'fid': fid, 'variants': variants}
 
 
+def distinct_model(rng, ftype, kind, thick):
+    """a model of the given kind with its own random values (so that using the wrong level's model changes the answer)"""
+    if kind == 'temperature models':
+        return {'model': 'uniform', 'temperature': wg.num(rng, 300, 1700)}
+    if kind == 'composition models':
+        c = rng.choice([[0], [1], [0, 1]])
+        return {'model': 'uniform', 'compositions': c, 'fractions': [wg.num(rng, 0.1, 1.0) for _ in c]}
+    if kind == 'grains models':
+        return {'model': 'uniform', 'compositions': [0], 'grain sizes': [wg.num(rng, 0.05, 0.9)], 'rotation matrices': [wg.rnd(wg.rot_matrix(rng))]}
+    return {'model': 'uniform raw', 'velocity': [wg.num(rng, -0.1, 0.1) for _ in range(3)]}
+
+
+def family_resolution(rng, fid):
+    """different models at feature, section and segment level; the second file spells out, for every coordinate and segment, the models
+    the inheritance rule selects (segment, else section, else feature) and has nothing at feature or section level"""
+    sph = rng.random() < 0.3
+    ctx = wg.gen_ctx(rng, sph, exotic=False)
+    n = rng.randint(2, 5)
+    f, t, ftype = base_feature(rng, ctx, n)
+    thick = t['thickness']
+    doc0 = {}
+    wg.gen_globals(rng, ctx, doc0, exotic=False, force_surface=False)
+    nseg = len(f['segments'])
+    A = copy.deepcopy(f)
+    F = {}
+    for kind in KINDS:
+        if rng.random() < 0.6:
+            F[kind] = [distinct_model(rng, ftype, kind, thick)]
+            A[kind] = copy.deepcopy(F[kind])
+    for s in A['segments']:
+        for kind in KINDS:
+            if rng.random() < 0.25:
+                s[kind] = [distinct_model(rng, ftype, kind, thick)]
+    secs = {}
+    for k in rng.sample(range(n), rng.randint(1, n)):
+        sec = {'coordinate': k, 'segments': copy.deepcopy(f['segments'])}
+        for kind in KINDS:
+            if rng.random() < 0.45:
+                sec[kind] = [distinct_model(rng, ftype, kind, thick)]
+        for s in sec['segments']:
+            for kind in KINDS:
+                if rng.random() < 0.3:
+                    s[kind] = [distinct_model(rng, ftype, kind, thick)]
+        secs[k] = sec
+    A['sections'] = [secs[k] for k in sorted(secs)]
+    B = copy.deepcopy(f)
+    bsecs = []
+    for k in range(n):
+        src = secs.get(k)
+        segs = copy.deepcopy(src['segments'] if src else A['segments'])
+        for s in segs:
+            for kind in KINDS:
+                if kind in s:
+                    continue
+                if src and kind in src:
+                    s[kind] = copy.deepcopy(src[kind])
+                elif kind in F:
+                    s[kind] = copy.deepcopy(F[kind])
+        bsecs.append({'coordinate': k, 'segments': segs})
+    B['sections'] = bsecs
+    variants = {'as-written': A, 'resolved': B}
+    c = core.Case(fid)
+    files = {}
+    names = list(variants)
+    for i, name in enumerate(names):
+        d = dict(doc0)
+        d['features'] = [variants[name]]
+        fn = '%s_%d.wb' % (fid, i)
+        files[fn] = wg.dumps(d)
+        world(c, i + 1, core.workfile(PID, fn))
+    c.files = files
+    tt = dict(t, trench=[tuple(p) for p in f['coordinates']], d0=f.get('min depth', 0.0), length=sum(s['length'] for s in f['segments']), angle0=f['segments'][0]['angle'][0], thickness=f['segments'][0]['thickness'][0])
+    plan = []
+    for (sx, sy, d) in [wg.point_in_feature(rng, ctx, tt) for _ in range(80)]:
+        if ctx.sph:
+            sx = ((sx + 180.0) % 360.0) - 180.0
+        plan.append(((sx, sy, d), [q3(c, i + 1, ctx, sx, sy, d, PROPS) for i in range(len(names))]))
+    return c, {'kind': 'equivalence', 'names': names, 'plan': plan, 'fid': fid, 'variants': variants, 'ref_name': 'as-written'}
+
+
 def family_locality(rng, fid):
     sph = rng.random() < 0.3
     ctx = wg.gen_ctx(rng, sph, exotic=False)
@@ -242,8 +322,8 @@ def check_equivalence(V, c, t):
         for name, r in zip(names[1:], rs[1:]):
             same = r[0] == ref[0] and (not ok(r) or core.same_bits(vals(r), vals(ref)))
             if not same:
-                V.violation('inheritance:equivalent-files-answer-differently:%s' % name, {'family': t['fid'], 'point': p, 'feature-level': ref, name: r,
-                                                                                          'feature_level_file': t['variants']['feature-level'], 'variant_file': t['variants'][name]})
+                V.violation('inheritance:equivalent-files-answer-differently:%s' % name, {'family': t['fid'], 'point': p, names[0]: ref, name: r,
+                                                                                          'reference_file': t['variants'][names[0]], 'variant_file': t['variants'][name]})
         if ok(ref) and vals(ref)[3] >= 0:
             V.nontrivial((t['fid'], p))
     V.sample({'family': t['fid'], 'kind': 'equivalence', 'variants': names, 'point': t['plan'][0][0], 'answer': c.results[t['plan'][0][1][0]][1][:60]}, limit=3)
@@ -311,13 +391,15 @@ def main(tier, seed, replay):
     rng = random.Random(seed * 700001 + 10)
     V = core.Verdict(PID, tier, seed)
     V.coverage['rule'] = ('(equivalence) families of six files that place the same temperature, composition, grains and velocity models at feature level / in every segment / with a sections entry per coordinate / mixed / in sections only / one kind at section level only: bit-identical answers (temperature, compositions, tag, grains, velocity); '
-                          '(locality) a world with one section per coordinate and the same world with coordinate k overridden (thickness, length, top truncation, temperature, composition, velocity, grains): bit-identical answers at points '
+                          '(resolution) a file with different models at feature, section and segment level against the file that spells out for every coordinate and segment what the rule segment > section > feature selects: bit-identical; (locality) a world with one section per coordinate and the same world with coordinate k overridden (thickness, length, top truncation, temperature, composition, velocity, grains): bit-identical answers at points '
                           'whose trench foot (library kernel bez_close) lies outside sections k-1 and k with 20 % margin; (convexity) uniform section temperatures/compositions/grain sizes/velocities: value between those of the two adjacent sections, '
                           'and equal to the section value on the normal through an interior coordinate of a collinear trench; non-trivial = points inside the feature (equivalence), far points and normal points (locality)')
     n_eq, n_loc = (60, 80) if tier == 'quick' else (1800, 2400)
     jobs = []
     for i in range(n_eq):
         jobs.append(family_equivalence(random.Random(rng.getrandbits(48)), 'e%d' % i))
+    for i in range(n_eq):
+        jobs.append(family_resolution(random.Random(rng.getrandbits(48)), 'r%d' % i))
     for i in range(n_loc):
         jobs.append(family_locality(random.Random(rng.getrandbits(48)), 'l%d' % i))
     core.run_cases('asan', [j[0] for j in jobs], PID)
